@@ -14,7 +14,8 @@ fi
 if [ "$patch" != "-" ]; then
   (cd "$d" && patch -p1 --quiet < "$patch") || { echo "patch failed"; exit 3; }
 fi
-VERIF_REPO="$d" /verif/check "$id" "$@"
+here="$(cd "$(dirname "$0")/.." && pwd)"   # the tree this script belongs to (a snapshot has its own work directory)
+VERIF_REPO="$d" "$here/check" "$id" "$@"
 rc=$?
 echo "mutant_run: exit $rc"
 exit $rc
